@@ -35,6 +35,31 @@ class Recorder:
 
 REC = Recorder()
 
+# Observers (used by the pytest-plugin workload): objects with before(name, obj, args, kwargs)
+# -> token and after(name, token, exc, ret); called around *top-level* calls only (depth 1).
+OBSERVERS: list = []
+
+
+def _before(name, obj, a, k):
+    toks = []
+    for o in OBSERVERS:
+        try:
+            toks.append((o, o.before(name, obj, a, k)))
+        except Exception:
+            toks.append((o, None))
+            o.errors = getattr(o, "errors", 0) + 1
+    return toks
+
+
+def _after(name, toks, exc, ret):
+    for o, t in toks:
+        if t is None:
+            continue
+        try:
+            o.after(name, t, exc, ret)
+        except Exception:
+            o.errors = getattr(o, "errors", 0) + 1
+
 USER_CLASSES = [
     "UserAddNode",
     "UserAddEdge",
@@ -74,6 +99,7 @@ def install():
                 REC.entries[name] = REC.entries.get(name, 0) + 1
                 REC.depth += 1
                 d = REC.depth
+                toks = _before(name, self, a, k) if d == 1 and OBSERVERS else ()
                 REC.events.append(("enter", name, d))
                 try:
                     orig(self, *a, **k)
@@ -82,9 +108,17 @@ def install():
                         ("raise", name, d, type(e).__name__,
                          bool(getattr(e, "forceable", False)), _innermost_site(e.__traceback__))
                     )
+                    REC.depth -= 1
+                    if toks:
+                        _after(name, toks, e, None)
+                    REC.depth += 1
                     raise
                 else:
                     REC.events.append(("exit", name, d))
+                    if toks:
+                        REC.depth -= 1
+                        _after(name, toks, None, None)
+                        REC.depth += 1
                 finally:
                     REC.depth -= 1
 
@@ -101,15 +135,24 @@ def install():
                 REC.entries[meth] = REC.entries.get(meth, 0) + 1
                 REC.depth += 1
                 d = REC.depth
+                toks = _before(meth, self, (), {}) if d == 1 and OBSERVERS else ()
                 REC.events.append(("enter", meth, d))
                 try:
                     r = orig(self)
                 except BaseException as e:
                     REC.events.append(("raise", meth, d, type(e).__name__, False,
                                        _innermost_site(e.__traceback__)))
+                    REC.depth -= 1
+                    if toks:
+                        _after(meth, toks, e, None)
+                    REC.depth += 1
                     raise
                 else:
                     REC.events.append(("exit", meth, d, r))
+                    if toks:
+                        REC.depth -= 1
+                        _after(meth, toks, None, r)
+                        REC.depth += 1
                     return r
                 finally:
                     REC.depth -= 1
@@ -150,6 +193,19 @@ def attach(tracks) -> None:
         REC.events.append(("emit", REC.depth, args[0] if args else None, len(args)))
 
     tracks._fv_slot = slot  # keep a strong reference
+    tracks.refresh.connect(slot)
+
+
+def attach_keep(tracks) -> None:
+    """Connect a recorder slot without touching the slots that are already connected
+    (pytest-plugin workload: the tests' own slots must keep working)."""
+    if getattr(tracks, "_fv_slot", None) is not None:
+        return
+
+    def slot(*args):
+        REC.events.append(("emit", REC.depth, args[0] if args else None, len(args), id(tracks)))
+
+    tracks._fv_slot = slot
     tracks.refresh.connect(slot)
 
 
